@@ -210,6 +210,9 @@ class NetGen:
                         vsl = []
                     elif mode < 0.35:
                         vsl = list(range(N))
+                    elif N >= 9 and mode < 0.7:
+                        # a few signs spread over a long link (two-digit and one-digit indices together)
+                        vsl = sorted(r.sample(range(N), r.randint(2, 4)))
                     else:
                         vsl = sorted(r.sample(range(N), r.randint(1, N)))
                     alpha = 0.0 if r.random() < 0.25 else distinct(0.0, 0.3)
